@@ -291,7 +291,7 @@ func (r *dRunner) runOp(op *dOp) map[string]interface{} {
 	key := string(keyb)
 	val, _ := hex.DecodeString(op.V)
 	var ki KeyInfo
-	if op.D != "" && op.Op != "destroy" && op.Op != "scan" && op.Op != "iterscan" && op.Op != "hstate" && op.Op != "mdel" && op.Op != "stats" && op.Op != "fragkeys" && op.Op != "cs" {
+	if op.D != "" && op.Op != "destroy" && op.Op != "scan" && op.Op != "iterscan" && op.Op != "hstate" && op.Op != "mdel" && op.Op != "stats" && op.Op != "fragkeys" && op.Op != "cs" && op.Op != "compactrace" {
 		ki = r.cl.KeyInfo(op.D, key)
 		ob["part"] = ki.Part
 	}
@@ -731,6 +731,40 @@ func (r *dRunner) runOp(op *dOp) map[string]interface{} {
 		}
 		ob["r"] = "ok"
 		ob["n"] = n
+	case "compactworker":
+		// the REAL compaction pass of member M (triggerCompaction: all partitions, primary and backup fragments)
+		t := time.Now()
+		if r.cl.Members[op.M].DB.VerifDMap().VerifTriggerCompaction(15 * time.Second) {
+			ob["r"] = "ok"
+		} else {
+			ob["r"] = "hung"
+		}
+		ob["ms"] = time.Since(t).Milliseconds()
+	case "compactrace":
+		// the real compaction pass of every member runs while DMap D is destroyed through member 0's embedded client
+		// (op.Ms microseconds after the passes were started)
+		results := make(chan bool, len(r.cl.Members))
+		n := 0
+		for _, m := range r.cl.Members {
+			if m.Alive {
+				n++
+				go func(m *Member) { results <- m.DB.VerifDMap().VerifTriggerCompaction(8 * time.Second) }(m)
+			}
+		}
+		time.Sleep(time.Duration(op.Ms) * time.Microsecond)
+		ki = r.cl.KeyInfo(op.D, "x")
+		dm, _, err := r.dmapFor("emb@owner", op.D, ki)
+		if err != nil {
+			ob["r"] = olricErr(err)
+			return ob
+		}
+		ob["destroy"] = olricErr(dm.Destroy(ctx))
+		ob["r"] = "ok"
+		for i := 0; i < n; i++ {
+			if !<-results {
+				ob["r"] = "hung"
+			}
+		}
 	case "stats":
 		// per member, per kind: totals over all partitions for dmap D, plus per-partition length / inuse
 		var out []map[string]interface{}
